@@ -224,6 +224,50 @@ def croniter_conformance(ctx: RunCtx):
     return out
 
 
+def launch_loop_shape(ctx: RunCtx):
+    """Syntactic obligation on BaseTrigger.trigger_loop_iteration: the loop over the run ids of a firing trigger attempts a claim for every
+    run id - it may only stop early after a successful launch of an AND trigger (which has one run id anyway)."""
+    import ast
+    import os
+    out = []
+
+    def ob(name, ok, detail=""):
+        o = Obligation(name=f"{PID}/launch-loop/{name}", kind="lemma", pc=[], goal=z3.BoolVal(bool(ok)), function="pynenc.trigger.base_trigger:BaseTrigger.trigger_loop_iteration")
+        o.detail = detail
+        out.append(o)
+    tree = ast.parse(open(os.path.join(ctx.repo, "pynenc/trigger/base_trigger.py")).read())
+    fn = next((n for n in ast.walk(tree) if isinstance(n, ast.FunctionDef) and n.name == "trigger_loop_iteration"), None)
+    loops = [n for n in ast.walk(fn) if isinstance(n, ast.For) and isinstance(n.target, ast.Name) and n.target.id == "run_id"] if fn else []
+    ob("found", len(loops) == 1, f"{len(loops)} loops over run_id")
+    if len(loops) == 1:
+        loop = loops[0]
+        parents = {}
+        for node in ast.walk(loop):
+            for ch in ast.iter_child_nodes(node):
+                parents[ch] = node
+
+        def guarded_by_and_after_claim(node):
+            and_guard = claim_ok = False
+            cur = node
+            while cur in parents and cur is not loop:
+                par = parents[cur]
+                if isinstance(par, ast.If) and cur in par.body:
+                    src = ast.unparse(par.test)
+                    if "CompositeLogic.AND" in src and "==" in src:
+                        and_guard = True
+                    if "claim_trigger_run(run_id)" in src and not src.strip().startswith("not "):
+                        claim_ok = True
+                cur = par
+            return and_guard and claim_ok
+        exits = [n for n in ast.walk(loop) if isinstance(n, (ast.Break, ast.Return, ast.Continue)) and n is not loop]
+        bad = [e for e in exits if not (isinstance(e, ast.Break) and guarded_by_and_after_claim(e))]
+        ob("every-run-id-gets-a-claim-attempt(early-exit-only-after-a-successful-AND-launch)", not bad,
+           detail=f"{len(bad)} early exit(s) of the run-id loop outside `if claim: ... if logic == AND: break` (lines {[e.lineno for e in bad]})")
+        claims = [n for n in ast.walk(loop) if isinstance(n, ast.Call) and isinstance(n.func, ast.Attribute) and n.func.attr == "claim_trigger_run"]
+        ob("the-claim-is-requested-for-the-loop's-run-id", len(claims) == 1 and ast.unparse(claims[0].args[0]) == "run_id" if claims else False)
+    return out
+
+
 def loop_scenarios(ctx: RunCtx) -> BoundedResult:
     """Bounded stand-in on the real trigger loop, both stores: k pending occurrences of an event condition -> k launches, each with
     the arguments of its own occurrence; a second loop iteration launches nothing more; cron CAS with expected 'never'."""
@@ -259,6 +303,34 @@ def loop_scenarios(ctx: RunCtx) -> BoundedResult:
                                              "input": {"occurrences": k, "logic": logic}, "finding_key": f"per-occurrence-arguments:{logic}"})
                 except Exception as e:
                     res.failures.append({"what": f"{backend}: scenario could not run: {type(e).__name__}: {str(e)[:150]}", "finding_key": f"{backend}:scenario-error"})
+        # a run id whose claim is held by another runner must not stop the others: refuse the j-th claim attempt of one iteration
+        for k, j in ((2, 0), (3, 0), (3, 1)):
+            n += 1
+            with real_app(backend) as app:
+                try:
+                    from pynenc.trigger.trigger_builder import TriggerBuilder
+                    target = app.task(verif_tasks.add)
+                    app.trigger.register_task_triggers(target, TriggerBuilder().on_event("verif_evt").with_args_from_event(verif_tasks.event_args).with_logic("or"))
+                    for i in range(k):
+                        app.trigger.emit_event("verif_evt", {"x": i})
+                    real_claim, attempts = app.trigger.claim_trigger_run, [0]
+
+                    def claim(run_id, *a, _real=real_claim, _att=attempts, _j=j, **kw):
+                        _att[0] += 1
+                        if _att[0] - 1 == _j:
+                            _real(run_id, *a, **kw)      # "another runner" takes this claim first
+                            return _real(run_id, *a, **kw)
+                        return _real(run_id, *a, **kw)
+                    app.trigger.claim_trigger_run = claim
+                    app.trigger.trigger_loop_iteration()
+                    app.trigger.claim_trigger_run = real_claim
+                    ids = list(app.orchestrator.get_task_invocation_ids(target.task_id))
+                    if len(ids) != k - 1:
+                        res.failures.append({"what": f"{backend}: OR trigger, {k} pending occurrences, the claim of run id #{j} is held by another runner: this runner launched "
+                                                     f"{len(ids)} of the other {k - 1} occurrences (their valid conditions are cleared all the same)",
+                                             "input": {"occurrences": k, "claim_held": j}, "finding_key": f"claim-held-by-another-runner:{k}:{j}"})
+                except Exception as e:
+                    res.failures.append({"what": f"{backend}: scenario could not run: {type(e).__name__}: {str(e)[:150]}", "finding_key": f"{backend}:scenario-error"})
         n += 1
         with real_app(backend) as app:
             from pynenc.trigger.conditions.cron import CronCondition
@@ -284,7 +356,7 @@ def build(ctx: RunCtx) -> Prop:
         pid=PID, title="cron decision = spec under the croniter schedule axioms; compare-and-swap on the last cron execution and trigger-run claims "
                        "(Mem proved incl. lock ownership, SQLite glue incl. BEGIN IMMEDIATE); loop scenarios bounded",
         level="other", technique="contract-based deductive verification (AST->z3 VCs, assumed croniter schedule contract with conformance test, lock/transaction ownership) + bounded loop scenarios",
-        registry=reg, verify=verify, lemmas=[croniter_conformance], bounded=[loop_scenarios],
+        registry=reg, verify=verify, lemmas=[launch_loop_shape, croniter_conformance], bounded=[loop_scenarios],
         replayers={"*croniter.match-is-exact*": lambda ctx, ob: ob.get("extra", {}).get("replay", {"confirmed": False})},
         assumptions=["croniter(expr, base).get_next/get_prev return the least / greatest scheduled instant after / before base; the schedule recurs for ever",
                      "croniter.match(expr, t) <=> t is a scheduled instant (ASSUMED by the proof; the conformance test shows the real library has minute precision: finding F-C13-4)",
